@@ -17,12 +17,12 @@ static inline _Bool ans_eq(struct ans a, struct ans b) { return a.has == b.has &
 /* ---- node_ptr ADT */
 #define ADT_MAX 8
 static uint8_t *adt_tbl[ADT_MAX]; static unsigned adt_n = 1;  /* handle 0 is never issued: word 0 is the null pointer */
-static uint8_t *adt_ptr(uint64_t word) { unsigned h = (unsigned)(word >> 3); __CPROVER_assert(h >= 1 && h < adt_n, "node_ptr::ptr() only of a node this step may touch (never of an opaque subtree)"); return adt_tbl[h < ADT_MAX ? h : 0]; }
+static uint8_t *adt_ptr(uint64_t word) { uint64_t h = word >> 3; __CPROVER_assert(h >= 1 && h < adt_n, "node_ptr::ptr() only of a node this step may touch (never of an opaque subtree)"); return adt_tbl[h < ADT_MAX ? h : 0]; }
 static uint64_t adt_tag(const uint8_t *p, unsigned t) {
   for (unsigned i = 1; i < ADT_MAX; i++) if (i < adt_n && adt_tbl[i] == p) return ((uint64_t)i << 3) | t;
   __CPROVER_assert(adt_n < ADT_MAX, "handle table large enough"); adt_tbl[adt_n] = (uint8_t *)p; return ((uint64_t)(adt_n++) << 3) | t;
 }
-static inline _Bool adt_known(uint64_t word) { unsigned h = (unsigned)(word >> 3); return h >= 1 && h < adt_n; }
+static inline _Bool adt_known(uint64_t word) { uint64_t h = word >> 3; return h >= 1 && h < adt_n; }
 #define ADT_DEF_PTR(A) A##_ret A(A##_a0 self) { return (A##_ret)adt_ptr(*(uint64_t *)self); }
 /* an opaque child word of any node type: a handle that will never be registered */
 static uint64_t opaque_word(void) { uint64_t w = nondet_u64(); __CPROVER_assume((w >> 3) >= ADT_MAX && (w & 7) <= 4); return w; }
